@@ -32,12 +32,13 @@ func runC01(r *harness.Run) {
 		"F-constobj": genConstObj(th),
 		// where the scope of a local begins
 		"F-localscope": genLocalScope(),
+		"F-fractkey":   genFractKey(),
 		// "an expression means the same whether ... kept in an upvalue": the closure families of C03
 		// (capture sites x exit routes; block nestings x capture levels x exits) belong here as well
 		"F-closure": genClosure(false),
 		"F-nest":    genNest(false),
 	}
-	order := []string{"F-constobj", "F-localscope", "F-closure", "F-nest", "F-assign", "F-tcons", "F-numfor", "F-genfor", "F-faultline", "F-goto", "F-cond", "F-ctrl", "F-expr"}
+	order := []string{"F-constobj", "F-localscope", "F-fractkey", "F-closure", "F-nest", "F-assign", "F-tcons", "F-numfor", "F-genfor", "F-faultline", "F-goto", "F-cond", "F-ctrl", "F-expr"}
 	r.Rule = "every program of the families F-assign (all multiple assignments/local declarations over 8 target kinds x 11 source kinds with aliasing), " +
 		"F-expr (all operator trees over a typed leaf alphabet x destination contexts x surrounding code), F-cond (boolean skeletons in value and branch position), " +
 		"F-ctrl (statement trees over if/while/repeat/for/break/goto/return), F-goto (every placement of up to 3 (thorough: 4) goto/label statements over two names in 13 slots of a nest of blocks; validity decided by a transcription of the label rules: invalid programs must be refused by the loader, valid ones run like the reference), F-numfor (all start/limit/step triples), F-tcons (table constructors around the flush boundary) " +
